@@ -89,6 +89,13 @@ def work(item):
             back = v.rebase(B).rebase(C)
             out.append(decide(q, enc, f"Cartesian -> {kind} -> Cartesian returns the components", [x - y for x, y in zip(pad(back.components), a)], dom,
                               {"rebased": [str(x)[:80] for x in v.rebase(B).components]}))
+            # vectors given with fewer components behave as zero-padded under rebase
+            for n in (1, 2):
+                enc = new_enc()
+                dom = [enc.tr(a[0])**2 + (enc.tr(a[1])**2 if n > 1 else 0) > 0, enc.tr(a[0]) != 0]
+                short = Vector(list(a[:n]), C).rebase(B)
+                full = Vector(list(a[:n]) + [0] * (3 - n), C).rebase(B)
+                out.append(decide(q, enc, f"Cartesian -> {kind} with {n} components = zero-padded", [x - y for x, y in zip(pad(short.components), pad(full.components))], dom))
             # the curvilinear components denote the same geometric vector
             enc = new_enc()
             dom = [enc.tr(a[0])**2 + enc.tr(a[1])**2 > 0]
